@@ -3,7 +3,7 @@
 (declare-fun utcoffset!3 () Int)
 (declare-fun fields!1 () Int)
 (assert
- (let ((?x30 (- fields!1 utcoffset!3)))
-(let (($x31 (= ?x30 ?x30)))
-(not $x31))))
+ (let ((?x32 (- fields!1 utcoffset!3)))
+(let (($x33 (= ?x32 ?x32)))
+(not $x33))))
 (check-sat)
